@@ -381,4 +381,57 @@ def getChains (i : GetIn) : Except GetErr (List Nat) :=
     | .inactive => .error .trcs
     | act => getChainsActive i chains act.trcs.length
 
+/-! ### `LoadChains` (store.go): the second entry point through which chains are accepted -/
+
+/-- what `LoadChains` learns about one `*.pem` file -/
+structure FileIn where
+  /-- `ReadPEMCerts` succeeds -/
+  readable : Bool
+  /-- `ValidateChain` succeeds (oracle here; its logic is `validateChain`) -/
+  chainValid : Bool
+  /-- the AS certificate's validity contains the current time -/
+  inValidity : Bool
+  /-- result of `activeTRCs` for the ISD of the AS certificate -/
+  active : ActiveRes
+  /-- oracle: the chain verifies now against `active.trcs[0]` / `[1]` -/
+  ok0 : Bool
+  ok1 : Bool
+  /-- `DB.InsertChain`: fails / reports "already there" -/
+  insertFails : Bool
+  duplicate : Bool
+  deriving Repr
+
+inductive FileRes where
+  | ignored | loaded | abort
+  deriving Repr, DecidableEq
+
+/-- the chain verifies against one of the selected TRCs -/
+def FileIn.verified (f : FileIn) : Bool :=
+  match f.active with
+  | .one _ => f.ok0
+  | .two _ _ => f.ok0 || f.ok1
+  | _ => false
+
+/-- the body of the loop of `LoadChains` for one file -/
+def loadFile (f : FileIn) : FileRes :=
+  if !f.readable then .ignored else
+  if !f.chainValid then .ignored else
+  if !f.inValidity then .ignored else
+  match f.active with
+  | .notFound => .ignored
+  | .dbErr => .abort
+  | .inactive => .abort
+  | _ =>
+    if !f.verified then .ignored else
+    if f.insertFails then .abort else
+    if f.duplicate then .ignored else .loaded
+
+/-- `LoadChains`: files in directory order; the first aborting file ends the run -/
+def loadChains : List FileIn → List FileRes
+  | [] => []
+  | f :: r =>
+    match loadFile f with
+    | .abort => [.abort]
+    | x => x :: loadChains r
+
 end Scion.Chain
